@@ -81,8 +81,8 @@ def perturb(rng, ns):
         p = dict(ns)
         p.update(kw)
         out.append(('bound:' + name, p))
-    bad('numinst<1', numinst=0)
-    bad('n1<1', n1=0)
+    bad('numinst<1', numinst=rng.choice([0, -1]))
+    bad('n1<1', n1=rng.choice([0, 0, -2]))
     if mp != 'sm':
         bad('n2<1', n2=0)
     if mp == 'spa':
